@@ -62,6 +62,17 @@ def rank_check(case):
         if np.max(np.abs(out - PW)) > 1e-9 * 2:
             v.append(("cadzow:plane-wave", "%dx%d layout: a single plane wave (k=%r,%r) at rank 1 is changed by %.3g" % (ncol, nrow, kx, ky, float(np.max(np.abs(out - PW))))))
             break
+    # the same sites listed in another channel order (by rows instead of by columns, reversed, shuffled), in the same process
+    for oname, perm in (("by rows", np.arange(nc).reshape(ncol, nrow).T.ravel()), ("reversed", np.arange(nc)[::-1]), ("shuffled", _rng(3, nc).permutation(nc))):
+        xp, yp = x[perm], y[perm]
+        kx, ky = 0.011, 0.031
+        PW = np.exp(-1j * 2 * np.pi * (kx * xp + ky * yp))[:, None] * np.array([1.0, 0.5 + 0.2j, -2.0])[None, :]
+        out = cadzow.denoise(PW.copy(), xp, yp, r=1)
+        ntr += 1
+        if np.max(np.abs(out - PW)) > 1e-9 * 2:
+            v.append(("cadzow:plane-wave:channel-order", "%dx%d layout with the channels listed %s (after the same layout listed by columns): a single plane wave at rank 1 is changed by %.3g"
+                      % (ncol, nrow, oname, float(np.max(np.abs(out - PW))))))
+            break
     # rank reduction attenuates added noise (fixed seeded content)
     if full >= 4:
         PW = np.exp(-1j * 2 * np.pi * (0.011 * x + 0.013 * y))[:, None] * np.ones((1, 8))
